@@ -237,7 +237,7 @@ ACCEPT_TABLE = {
                                                                                                                                                                   lambda facts, s: _guard_unix_remote_some(facts, s)),
     r"^<stream::unix::UnixStream as info::HasConnectionInfo>::info\|result-unwrap\|expect\|local_addr is available for unix stream\|<=UnixStream::local_addr$": ("by-construction", "the local address is the listener's own path: a listener-level condition, not a per-connection one"),
     r"^<server::conn::tls::info::TlsConnectionInfoReciever.*\|": ("by-construction", "receiver state of the TLS info channel"),
-    r"^polled_span::\{closure#0\}\|option-unwrap\|expect\|Missing ID; this is a bug\|<=Span::id$": ("by-construction", "tracing span bookkeeping, independent of connection data"),
+    r"^polled_span\|option-unwrap\|expect\|Missing ID; this is a bug\|<=Span::id$": ("by-construction", "tracing span bookkeeping, independent of connection data"),
     r"^<server::conn::auto::ReadVersion as futures_core::Future>::poll\|slice-index\|index": ("guarded", "indices are len_before <= filled().len() <= 24 = HTTP2_PREFIX.len(): the loop runs only while filled().len() < HTTP2_PREFIX.len() and ReadBuf never exceeds its 24-byte capacity (extent agreement is checked by C08.2)"),
     r"^<rewind::Rewind as hyper::rt::Read>::poll_read\|(slice-index|bytes-range)": ("guarded", "n = min(prefix.len(), remaining): checked by C08.5"),
     r"^rewind::put_slice\|": ("guarded", "assert!(remaining >= slice.len()) with slice.len() = n <= remaining (C08.5)"),
